@@ -94,7 +94,7 @@ def default_replay(ob, cex):
     return None
 
 
-def do_replay(ob, cex):
+def do_replay(ob, cex, body_only=False):
     from engine import chplug
     chplug.uninstall_struct_model()
     chplug.OPAQUE_REPR[0] = False
@@ -102,7 +102,7 @@ def do_replay(ob, cex):
     saved = sys.stdout, sys.stderr
     sys.stdout = sys.stderr = devnull
     try:
-        if ob.replay is not None:
+        if ob.replay is not None and not body_only:
             return ob.replay(**cex)
         return default_replay(ob, cex)
     finally:
@@ -110,7 +110,7 @@ def do_replay(ob, cex):
         devnull.close()
 
 
-def isolated_replay(ob, seq):
+def isolated_replay(ob, seq, body_only=False):
     """run do_replay for each input of `seq`, in order, in a forked child of this process (which never replays anything
     itself, so no replay sees state left behind by another); returns the result for the last input.  A replay that raises
     is re-raised here as RuntimeError."""
@@ -123,10 +123,10 @@ def isolated_replay(ob, seq):
         try:
             for x in seq[:-1]:
                 try:
-                    do_replay(ob, x)
+                    do_replay(ob, x, body_only)
                 except Exception:
                     pass
-            d = do_replay(ob, seq[-1])
+            d = do_replay(ob, seq[-1], body_only)
             out = ("ok", d if (d is None or isinstance(d, str)) else str(d))
         except Exception as e:
             out = ("exc", "%s: %s" % (type(e).__name__, str(e)[:600]))
@@ -176,7 +176,7 @@ def replay_with_history(ob, cex, max_primers=16):
     return None
 
 
-def history_probe(ob, seed=0, max_seqs=80):
+def history_probe(ob, seed=0, max_seqs=80, concrete_failures=False):
     """CrossHair reported NotDeterministic for this obligation: re-executing the same path took different branches, i.e.
     something kept state between executions.  Look for a concrete two-call sequence on the real code that shows it: inputs
     a, b (b = a with one parameter changed) such that b alone satisfies the obligation and b after a does not."""
@@ -204,7 +204,39 @@ def history_probe(ob, seed=0, max_seqs=80):
             bases.append(x)
         if len(bases) >= 12:
             break
+    # The obligation's own assertion (the body, run concretely) decides; the replay function - which may compare with a real
+    # interpreter beyond the obligation's domain - must agree before anything is reported.
+    def fails(seq):
+        try:
+            d = isolated_replay(ob, seq, body_only=True)
+            if not d:
+                return None
+            if ob.replay is None:
+                return d
+            return isolated_replay(ob, seq) or None
+        except RuntimeError:
+            return None
+
+    def passes(x):
+        try:
+            return not isolated_replay(ob, [x], body_only=True) and (ob.replay is None or not isolated_replay(ob, [x]))
+        except RuntimeError:
+            return False
     tried = 0
+    for a in bases[:3]:
+        # a concrete input that satisfies the precondition and fails the assertion on its own: the real code disagrees with
+        # what the symbolic run saw (CrossHair e.g. bypasses functools.lru_cache while tracing); then the same call twice
+        # (a result object that is cached and later mutated shows there)
+        tried += 1
+        d0 = fails([a])
+        if d0:
+            if concrete_failures:
+                return None, a, d0
+            continue
+        if passes(a):
+            d = fails([a, a])
+            if d:
+                return a, a, d
     for a in bases:
         for n in names:
             for v in (ranges[n][0], ranges[n][1], pick(n)):
@@ -217,12 +249,9 @@ def history_probe(ob, seed=0, max_seqs=80):
                 tried += 1
                 if tried > max_seqs:
                     return None
-                try:
-                    if isolated_replay(ob, [b]):
-                        continue
-                    d = isolated_replay(ob, [a, b])
-                except RuntimeError:
+                if not passes(b):
                     continue
+                d = fails([a, b])
                 if d:
                     return a, b, d
     return None
@@ -400,7 +429,8 @@ def _history_ob(prop, obs, seed, n_obs=40):
     depend on the history of the process.  The symbolic obligations usually notice (paths of one obligation share a
     process), but only by luck of path order; this sweep makes it systematic on the real code: for a seeded sample of
     obligations, inputs a and b (b = a with one parameter changed), b alone must pass and b after a must pass too."""
-    cands = [o for o in obs if o.params and o.body is not None and o.direct is None]
+    known_regions = set(k["region"] for k in load_known().get("findings", []) if k["property"] == prop)
+    cands = [o for o in obs if o.params and o.body is not None and o.direct is None and o.region not in known_regions]
     random.Random(seed + 17).shuffle(cands)
     cands = cands[:n_obs]
 
@@ -408,7 +438,7 @@ def _history_ob(prop, obs, seed, n_obs=40):
         n = 0
         for o in cands:
             n += 1
-            h = history_probe(o, seed, max_seqs=2)
+            h = history_probe(o, seed, max_seqs=2, concrete_failures=True)
             if h is not None:
                 return ("refuted", "%s: after %r, %r: %s" % (o.id, h[0], h[1], h[2]), {"obligation": o.id, "first": h[0], "then": h[1]}, 0, 0.0)
         return "confirmed", "%d obligations, two-call sequences" % n, None, 0, 0.0
@@ -417,9 +447,18 @@ def _history_ob(prop, obs, seed, n_obs=40):
         o = next((x for x in obs if x.id == obligation), None)
         if o is None:
             return None
-        if isolated_replay(o, [then]):
+
+        def fails(seq):
+            d = isolated_replay(o, seq, body_only=True)
+            if d and o.replay is not None:
+                d = isolated_replay(o, seq)
+            return d or None
+        d0 = fails([then])
+        if first is None:
+            return ("concrete input %r fails obligation %s on the real code: %s" % (then, obligation, d0)) if d0 else None
+        if d0:
             return None
-        d = isolated_replay(o, [first, then])
+        d = fails([first, then])
         return ("history-dependent (%s): after the same operation on %r, %s (alone, %r gives the right result)" % (obligation, first, d, then)) if d else None
 
     return runner.Ob(id="%s.history-sweep" % prop, prop=prop, params=[], body=None, direct=q, replay=replay,
